@@ -383,7 +383,93 @@ def zero_guarded(cfg, bb):
 SCALAR2CONST = {"Bool": "Bool", "Int32": "Int32", "UInt32": "UInt32", "Float16": "Float16", "Float32": "Float32", "Float64": "Float64"}
 
 
+def rule_cast_eval(chk, ec):
+    """evaluate_cast evaluated over the type registry model for every scalar target x every constant kind (plain and
+    wrapped in Constant::Enum) on sample values: result kind and value equal the reference conversion. Returns True when
+    the whole table was readable (the shape rules below are then not needed)."""
+    import convmodel as CM
+    import interp as I
+    f = chk.facts
+    cv = CM.Conversions(f)
+    ip = I.Interp(f, max_depth=8, extern=cv.u.externs())
+
+    def wrap(v, bits, signed):
+        v &= (1 << bits) - 1
+        return v - (1 << bits) if signed and v >= (1 << (bits - 1)) else v
+
+    def ref(target, kind, v):
+        if target == "Bool":
+            return ("Bool", v != 0)
+        if target in ("Int32", "UInt32"):
+            if isinstance(v, bool):
+                return (target, int(v))
+            if isinstance(v, int):
+                return (target, wrap(v, 32, target == "Int32"))
+            lo, hi = (-(1 << 31), (1 << 31) - 1) if target == "Int32" else (0, (1 << 32) - 1)
+            return (target, 0 if v != v else max(lo, min(hi, int(v))))
+        fv = float(v)
+        if kind in ("Float16", "Float32"):
+            fv = I.F32(fv)
+        return (target, I.F32(fv) if target in ("Float16", "Float32") else fv)
+    SRC = {"Bool": [False, True], "IntLiteral": [0, 7, -3, 1 << 32, (1 << 31)], "Int32": [0, -5, 2147483647, -2147483648], "UInt32": [0, 9, 4294967295],
+           "FloatLiteral": [0.0, 2.5, -1.5, 5e9], "Float16": [0.0, 1.5], "Float32": [0.0, -2.75, 3e9], "Float64": [0.0, 0.1, -4e9]}
+    n = 0
+    readable = True
+    for target in SCALAR2CONST:
+        for kind, values in SRC.items():
+            bad = None
+            for v in values:
+                for wrapped in (False, True):
+                    c = I.Enum("Constant", kind, {"0": v})
+                    if wrapped:
+                        c = I.Enum("Constant", "Enum", {"0": I.Enum("EnumId", None, {"0": 0}), "1": c})
+                    try:
+                        r = ip.apply(ec, [cv.u.type_id(target), c, I.Opaque("module")])
+                    except I.Unknown as e:
+                        if "panicking" in str(e):
+                            bad = "casting Constant::%s(%r)%s to %s aborts (%s)" % (kind, v, " inside an enum value" if wrapped else "", target, str(e)[:60])
+                            break
+                        readable = False
+                        break
+                    got = None
+                    if isinstance(r, I.Enum) and r.variant == "Ok" and isinstance(r.fields.get("0"), I.Enum):
+                        got = (r.fields["0"].variant, r.fields["0"].fields.get("0"))
+                    want = ref(target, kind, v)
+                    if got != want:
+                        bad = "casting Constant::%s(%r)%s to %s gives %s, must be Constant::%s(%r)" % (kind, v, " inside an enum value" if wrapped else "", target,
+                                                                                                      "Constant::%s(%r)" % got if got else (r.variant if isinstance(r, I.Enum) else r), want[0], want[1])
+                        break
+                if bad or not readable:
+                    break
+            if not readable:
+                return False
+            n += 1
+            chk.ob("C13.cast/%s/from-%s" % (target, kind), bad is None, "equals the reference conversion on %d values (plain and enum-wrapped)" % len(values) if bad is None else bad,
+                   where(ec), sample={"target": target, "from": kind})
+            chk.ob("C13.cast/%s/enum-peel" % target, bad is None or "enum" not in bad, "enum wrapper peeled before the conversion", where(ec), trivial=True)
+    for t_ in SCALAR2CONST:
+        chk.ob("C13.cast/%s/present" % t_, True, "target handled", where(ec), trivial=True)
+    chk.floor("C13.floor/cast-table", n, 48, "source-kind x target entries of evaluate_cast", where(ec))
+    return True
+
+
 def rule_cast(chk, ec):
+    try:
+        if rule_cast_eval(chk, ec):
+            # the enum target arm is still judged by shape below
+            m = outer_match(ec, "TypeLayer")
+            for arm in (m["arms"] if m else []):
+                pv = F.pat_variant(F.pat_alternatives(arm["pat"])[0])
+                if pv and pv[1] == "Enum":
+                    calls = [c for c in F.exprs(arm["body"], "Call") if c.get("fn") == ec["path"]]
+                    wraps = [a for a in F.exprs(arm["body"], "Adt") if short(a["adt"]) == "Constant" and a.get("variant") == "Enum"]
+                    under = any(short(c.get("fn") or "") == "get_underlying_type_id" for c in F.exprs(arm["body"], "Call"))
+                    ok = bool(calls) and bool(wraps) and under
+                    chk.ob("C13.cast/Enum", ok, "enum target: cast to the underlying type, then wrap" if ok else
+                           "cast to an enum no longer recurses on the underlying type and re-wraps", where(ec, arm))
+            return
+    except Exception:
+        pass
     m = outer_match(ec, "TypeLayer")
     if not chk.anchor("C13.anchor/cast-match", m, "match over TypeLayer in evaluate_cast", where(ec)):
         return
@@ -510,54 +596,56 @@ def exact_var(x, scope, depth=0):
 
 
 def rule_literal_fold(chk):
-    """ImplicitConversion::apply folds an untyped literal into the target type instead of emitting a cast: the folded
-    constant must be what evaluate_cast computes for the same conversion - Constant::<kind of the target>, bool as
-    `v != 0` on the literal's own (unnarrowed) value, numbers as one conversion of the literal's value."""
+    """ImplicitConversion::apply folds an untyped literal into the target type instead of emitting a cast. apply is
+    evaluated (convmodel.py) for IntLiteral / FloatLiteral values - including multiples of 2^32, negatives and values
+    beyond 32 bits - towards every scalar target: the folded constant must be Constant::<kind of the target> holding what
+    the run-time conversion gives (bool: value != 0 on the literal's own value; integers: wrap / saturate as `as` does;
+    floats: the nearest value)."""
+    import convmodel as CM
+    import interp as I
     f = chk.facts
     app = chk.anchor("C13.anchor/ImplicitConversion::apply", f.fn("apply", TY, self_ty="ImplicitConversion"), "ImplicitConversion::apply")
     if not app:
         return
+    cv = CM.Conversions(f)
+    lit = lambda k, v: I.Enum("Expression", "Literal", {"0": I.Enum("Constant", k, {"0": v})})
+
+    def wrap(v, bits, signed):
+        v &= (1 << bits) - 1
+        return v - (1 << bits) if signed and v >= (1 << (bits - 1)) else v
     n = 0
-    for iff in F.exprs(app["thir"], "If"):
-        c = F.strip(iff["cond"])
-        if c.get("k") != "Let":
-            continue
-        lit = [q for q in F.walk(c["pat"]) if isinstance(q, dict) and q.get("k") == "Variant" and q.get("variant") in ("IntLiteral", "FloatLiteral")]
-        if not lit:
-            continue
-        src = lit[0]["variant"]
-        binds = [i for i, nm, path in F.pat_binds(lit[0])]
-        if len(binds) != 1:
-            continue
-        vid = binds[0]
-        for m in F.exprs(iff["then"], "Match"):
-            for arm in m["arms"]:
-                alt = F.pat_alternatives(arm["pat"])[0]
-                pv = F.pat_variant(alt)
-                if not pv or pv[1] != "Scalar":
-                    continue
-                inner = F.pat_sub(alt, "0")
-                target = inner.get("variant") if inner and inner.get("k") == "Variant" else None
-                if target is None:
-                    continue
-                want = SCALAR2CONST.get(target)
-                res = [a for a in F.exprs(arm["body"], "Adt") if short(a["adt"]) == "Constant" and a["fields"]]
-                if not res:
-                    continue
-                n += 1
-                kind = res[0]["variant"]
-                payload = res[0]["fields"][0]["e"]
-                ok = kind == want
-                why = "Constant::%s" % kind
-                if ok and target == "Bool":
-                    o = operation_of(payload)
-                    ok = o[0] == "bin" and o[1] == "Ne" and exact_var(o[2], iff["then"]) == vid and F.lit(o[3]) is not None and float(F.lit(o[3])[1]) == 0.0
-                    why = "Bool(v != 0) on the literal's own value" if ok else \
-                        "a %s folded to bool is not `v != 0` on the literal's own value (the operand is narrowed or replaced first): literals whose low bits are zero become false, unlike evaluate_cast and the run-time conversion" % src
-                elif ok:
-                    ok = var_id(payload, iff["then"]) == vid
-                    why = "one conversion of the literal's value" if ok else "the folded %s payload does not come from the literal" % target
-                else:
-                    why = "a %s folded for a %s target becomes Constant::%s, must be Constant::%s" % (src, target, kind, want)
-                chk.ob("C13.fold/%s/to-%s" % (src, target), ok, why, where(app, arm), sample={"from": src, "target": target, "result": kind})
-    chk.floor("C13.floor/literal-fold", n, 12, "literal x target entries folded by ImplicitConversion::apply", where(app))
+    for src, values in (("IntLiteral", [0, 1, 5, -1, 1 << 31, 1 << 32, (1 << 32) + 1, 3 << 32, -(1 << 32), 1 << 63]),
+                        ("FloatLiteral", [0.0, 0.5, 1.0, -1.5, 3.99, 4294967296.0, -0.0])):
+        for target in ("Bool", "UInt32", "Int32", "Float16", "Float32", "Float64"):
+            r = cv.find(src, "Rvalue", target, "Rvalue")
+            bad = None
+            if r[0] != "Ok":
+                bad = "no conversion %s -> %s (%s)" % (src, target, r[0])
+            else:
+                for v in values:
+                    out = cv.apply(r[1], lit(src, v))
+                    if isinstance(out, tuple):
+                        bad = "apply is %s for the literal %r (%s)" % (out[0], v, out[1][:80])
+                        break
+                    c = out.fields.get("0") if isinstance(out, I.Enum) and out.variant == "Literal" else None
+                    if not isinstance(c, I.Enum):
+                        continue      # not folded: an explicit cast is emitted, evaluate_cast decides its value
+                    want_kind = SCALAR2CONST[target]
+                    got = c.fields.get("0")
+                    if target == "Bool":
+                        want = (v != 0)
+                    elif target in ("UInt32", "Int32"):
+                        if isinstance(v, int):
+                            want = wrap(v, 32, target == "Int32")
+                        else:
+                            lo, hi = (-(1 << 31), (1 << 31) - 1) if target == "Int32" else (0, (1 << 32) - 1)
+                            want = max(lo, min(hi, int(v)))
+                    else:
+                        want = I.F32(v) if target in ("Float16", "Float32") else float(v)
+                    if c.variant != want_kind or got != want:
+                        bad = "the literal %r folded for a %s target becomes Constant::%s(%r), must be Constant::%s(%r)" % (v, target, c.variant, got, want_kind, want)
+                        break
+            n += 1
+            chk.ob("C13.fold/%s/to-%s" % (src, target), bad is None, "folded constants equal the run-time conversion for %d literal values" % len(values) if bad is None else
+                   "%s: a literal converted implicitly gets another value than the explicit cast / the run-time conversion" % bad, where(app), sample={"from": src, "target": target})
+    chk.floor("C13.floor/literal-fold", n, 12, "literal x target entries of ImplicitConversion::apply", where(app))
